@@ -1031,7 +1031,76 @@ def build_T16l(tree):
     return t + '\n\n' + t2, hashlib.sha256('\n'.join(shas).encode()).hexdigest()
 
 
+# ---------------------------------------------------------------- T16m: what the accessors of a returned group search for
+def build_T16m(tree):
+    """The accessors of `_MeasurementsAndQualitativeEvaluations` (the class of every returned group): every
+    `find_content_items(root_item, ...)` call - accessor, concept name ('value|scheme', '' = none, '<name>' = the caller's
+    argument), value type, relationship type VALUE ('' = none), recursive? - and the names `get_qualitative_evaluations`
+    excludes.
+      Gen.accessorSearches : List (String × String × String × String × Bool)
+      Gen.evaluationReservedNames : List String"""
+    modcodes = _module_codes(tree)
+    rels = _rel_values()
+    cls = [n for n in ast.walk(tree) if isinstance(n, ast.ClassDef) and n.name == '_MeasurementsAndQualitativeEvaluations']
+    if len(cls) != 1:
+        raise Unsupported('class _MeasurementsAndQualitativeEvaluations not found')
+    rows, shas, reserved = [], [], None
+
+    def code_text(node):
+        c = _code_of(node, modcodes)
+        if c is not None:
+            return c
+        if isinstance(node, ast.Call) and ast.unparse(node.func) in ('Code', 'CodedConcept'):
+            if node.args and all(isinstance(a, ast.Constant) for a in node.args[:2]):
+                return f'{node.args[0].value}|{node.args[1].value}'
+            kw = {k.arg: k.value.value for k in node.keywords if isinstance(k.value, ast.Constant)}
+            if 'value' in kw and 'scheme_designator' in kw:
+                return f'{kw["value"]}|{kw["scheme_designator"]}'
+        if isinstance(node, ast.Name):
+            return '<' + node.id + '>'
+        raise Unsupported(f'accessor searches for a name that is no code: {ast.unparse(node)}')
+    for fn in [n for n in cls[0].body if isinstance(n, ast.FunctionDef) and n.name not in ('__init__', 'from_sequence')]:
+        for call in [n for n in ast.walk(fn) if isinstance(n, ast.Call) and ast.unparse(n.func) == 'find_content_items']:
+            if len(call.args) != 1 or ast.unparse(call.args[0]) != 'root_item':
+                raise Unsupported(f'{fn.name}: find_content_items is no longer called on root_item')
+            kw = {k.arg: k.value for k in call.keywords}
+            if set(kw) - {'name', 'value_type', 'relationship_type', 'recursive'}:
+                raise Unsupported(f'{fn.name}: unexpected arguments of find_content_items: {sorted(kw)}')
+            vt = ast.unparse(kw['value_type']).split('.')[-1] if 'value_type' in kw else ''
+            rel = ''
+            if 'relationship_type' in kw:
+                m = ast.unparse(kw['relationship_type']).split('.')[-1]
+                if m not in rels:
+                    raise Unsupported(f'{fn.name}: relationship type {m} is no member of the enumeration')
+                rel = rels[m]
+            rec = 'recursive' in kw and ast.unparse(kw['recursive']) != 'False'
+            rows.append((fn.name, code_text(kw['name']) if 'name' in kw else '', vt, rel, rec))
+        if fn.name == 'get_qualitative_evaluations':
+            tuples = [n for n in ast.walk(fn) if isinstance(n, ast.Compare) and len(n.ops) == 1 and isinstance(n.ops[0], ast.NotIn)
+                      and ast.unparse(n.left) == 'item.name' and isinstance(n.comparators[0], ast.Tuple)]
+            if len(tuples) != 1:
+                raise Unsupported('get_qualitative_evaluations: the exclusion `item.name not in (...)` not found')
+            reserved = [code_text(e) for e in tuples[0].comparators[0].elts]
+        if fn.name in ('tracking_identifier', 'tracking_uid', 'finding_category', 'finding_type', 'method'):
+            # single-valued accessors return the first match
+            t = ' '.join(ast.unparse(fn).split())
+            if 'if len(matches) > 0: return ' not in t or 'matches[0].value' not in t:
+                raise Unsupported(f'{fn.name}: no longer returns the value of the first match')
+        shas.append(ast.unparse(fn))
+    if reserved is None or not rows:
+        raise Unsupported('accessors of _MeasurementsAndQualitativeEvaluations not found')
+    q = lambda x: '"' + x.replace('\\', '\\\\').replace('"', '\\"') + '"'   # noqa: E731
+    t1 = lean_table('accessorSearches', 'List (String × String × String × String × Bool)',
+                    ['(' + ', '.join(q(x) for x in r[:4]) + ', ' + ('true' if r[4] else 'false') + ')' for r in rows],
+                    doc='(accessor, concept name, value type, relationship type, recursive) of every `find_content_items(root_item, …)` '
+                        'call of the accessors of a measurement group')
+    t2 = lean_table('evaluationReservedNames', 'List String', [q(x) for x in reserved],
+                    doc='`get_qualitative_evaluations`: names of CODE items that are not evaluations')
+    return t1 + '\n\n' + t2, hashlib.sha256('\n'.join(shas).encode()).hexdigest()
+
+
 TARGETS = {
+    'T16m': {'file': 'sr/templates.py', 'build': build_T16m},
     'T16l': {'file': 'sr/templates.py', 'build': build_T16l},
     'T16k': {'file': 'sr/templates.py', 'build': build_T16k},
     'T16h': {'file': 'sr/templates.py', 'build': build_T16h},
